@@ -369,3 +369,4 @@ not_reproduced()
 
 # level text addendum (cases added after the seeded-change rounds)
 LEVEL_TEXT = LEVEL_TEXT + ' Also: the file growing or shrinking between construction / first open and open(), ignore_warnings symbolic, in-progress metadata without a duration, compressed streams replayed on real mtscomp files.'
+LEVEL_TEXT = LEVEL_TEXT + ' Round 6: a compressed stream whose metadata has the right byte count and a stale duration.'
